@@ -44,6 +44,7 @@ PROP = [  # (substring of the commit subject, property, what failed before the f
  ('0-d population array for one-state', 'C16', 'MSM.load of a one-state model returned 0-d eq_probs_ (shape differs from the saved model; second save failed)'),
  ('save(force=True) could not replace', 'C16', 'MSM.save(path, force=True) raised on an existing model directory (os.remove on a directory)'),
  ('wrapped frame indices for narrow label dtypes', 'C10', 'find_cluster_centers with int8/uint8 assignments returned wrapped frame indices >= 128/256; list inputs mis-compared'),
+ ('matrix product for numpy.matrix input', 'C08', 'reactive_fluxes / net_fluxes with numpy.matrix tprob silently returned a matrix product instead of the element-wise flux'),
 ]
 log = subprocess.run(['git', '-C', '/repo', 'log', '--reverse', '--format=%h|%s'], capture_output=True, text=True).stdout.strip().split('\n')
 fixed = []
